@@ -227,7 +227,7 @@ def _task(t):
 def only_top_level_for(stmts):
     """checkstopmax is only guaranteed to fire when the loop is not itself under a false guard."""
     return all(st[0] != "if" and st[0] != "while" for st in stmts) and any(
-        (st[0] == "for" and st[3] and st[1] == min_checked_for(stmts)) or (st[0] == "for2" and st[4] and st[2] == min_checked_for(stmts)) for st in stmts)
+        (st[0] == "for" and st[3] and st[1] == min_checked_for(stmts) and not (len(st) > 4 and st[4])) or (st[0] == "for2" and st[4] and st[2] == min_checked_for(stmts)) for st in stmts)
 
 
 def shape(stmts):
@@ -312,5 +312,5 @@ def _fix(stmts):
         elif st[0] == "for2":
             out.append(("for2", st[1], st[2], _fix(list(st[3])), st[4]))
         else:
-            out.append(("for", st[1], _fix(list(st[2])), st[3]))
+            out.append(("for", st[1], _fix(list(st[2])), st[3]) + tuple(st[4:]))
     return out
